@@ -38,6 +38,16 @@ def run(idx, rep, tier):
     # an exception that gets out of one member on some line and is handled without re-raising costs that member its say about the line and
     # nothing else: the members after it are still handed the line (track_line + consideration), as they are when they run alone
     byline(idx, rep, "R6", "R3", tier, scenarios=("abort",), aspects=("schedule", "yields"))
+    # alone, a member's unmatched lines include the line it stopped on when that line did not match — as they do by line (byline_keep above):
+    # the generator's yield / unmatched partition (C07.R7's table)
+    from . import c07 as _c07
+    _c07.r4_r5_r7(idx, K.as_rule(rep, "R2", keep=lambda k: "partition" in k))
+    # in a breadth-first run every member is handed the same list object for a line, and so is the caller: a member must leave it as it
+    # came from the file.  collect()'s projection builds a new list (C07.R6's table), and nothing but the documented line editors
+    # (replace(), append()) writes into a line in place
+    _c07.r6(idx, K.as_rule(rep, "R2", keep=lambda k: "limit_collection table" in k))
+    line_writers(idx, rep, "R2")
+    byline_wrappers(idx, rep, "R3")
     r1(idx, rep)
     r2(idx, rep)
     r4(idx, rep)
@@ -284,3 +294,62 @@ def r4(idx, rep):
             if own == "CsvPaths.next_by_line":
                 okr = okr and s["target"].attr in ("_skip_all", "_advance_all")
             rep.check(okr, "R4", f"{fi.file}::{fi.qual} resets {s['target'].attr}", f"`{unparse(s['stmt'])}`: the signal flags may only be raised by their setters and cleared by the run resets", K.where(fi, s["stmt"]))
+
+
+
+LINE_EDITORS = {"Replace", "Append"}   # replace(#h, v) and append(name, v): the functions documented to change the line for what follows
+_MUTATORS = {"append", "insert", "pop", "remove", "extend", "clear", "sort", "reverse", "__setitem__", "__delitem__"}
+
+
+def line_writers(idx, rep, rid):
+    """in-place writes to a line (`<x>.line[i] = …`, `line[:] = …`, `<x>.line.append(…)`, `del line[i]`) outside the documented line editors"""
+    n = 0
+    hits = []
+    for fi in idx.all_funcs("csvpath/"):
+        if not (fi.file.startswith("csvpath/matching/") or fi.file in ("csvpath/csvpath.py", "csvpath/csvpaths.py")):
+            continue
+        n += 1
+        for node in walk_no_nested(fi.node):
+            base = None
+            if isinstance(node, ast.Subscript) and isinstance(node.ctx, (ast.Store, ast.Del)):
+                base = node.value
+            elif isinstance(node, ast.Call) and isinstance(node.func, ast.Attribute) and node.func.attr in _MUTATORS:
+                base = node.func.value
+            if base is None:
+                continue
+            t = K.resolved_text(fi, base) if isinstance(base, ast.Name) else unparse(base)
+            # (a local that is bound to a new list — `line = []` — resolves to that expression, not to a line that came in)
+            if t == "line" or t.endswith(".line"):
+                hits.append((fi, node))
+    for fi, node in hits:
+        rep.check(fi.cls in LINE_EDITORS, rid, f"{fi.file}::{fi.qual} writes into the line in place", f"`{unparse(node)[:80]}`: the list a line arrives in is shared by every member of a "
+                  "breadth-first run and by the caller; only replace() and append() are documented to change it", K.where(fi, node))
+    rep.check(n > 300, rid, "csvpath::in-place writes to a line are confined to the line editors", f"{n} functions scanned, {len(hits)} write sites", "csvpath/")
+
+
+def byline_wrappers(idx, rep, rid):
+    """collect_by_line / fast_forward_by_line are the generator next_by_line driven to its end: same group, same file, the caller's
+    if_all_agree / collect_when_not_matched (both off unless asked for), collecting on for collect_by_line only; collect_by_line returns
+    the lines the generator yielded, in order"""
+    for meth, collect in (("collect_by_line", True), ("fast_forward_by_line", False)):
+        fi = idx.method("CsvPaths", meth)
+        rep.analysed(fi)
+        bad = None
+        for given in ({}, {"if_all_agree": True}, {"collect_when_not_matched": True}, {"if_all_agree": True, "collect_when_not_matched": True}):
+            seen = []
+            it = Interp(idx, types={"self": "CsvPaths"}, unknown_calls="residual",
+                        handlers={"self.next_by_line": lambda i, c, r, a, k, seen=seen: (seen.append(dict(k)), [Residual("L0"), Residual("L1"), Residual("L2")])[1]})
+            args = {"pathsname": "P", "filename": "F"}
+            args.update(given)
+            ps = it.run_all(fi, args=args)
+            wantkw = {"pathsname": "P", "filename": "F", "collect": collect, "if_all_agree": given.get("if_all_agree", False), "collect_when_not_matched": given.get("collect_when_not_matched", False)}
+            gotkw = dict(seen[0]) if len(seen) == 1 else None
+            if gotkw is not None:
+                gotkw.setdefault("collect", False)
+                gotkw.setdefault("if_all_agree", False)
+                gotkw.setdefault("collect_when_not_matched", False)
+            if len(ps) != 1 or ps[0].result[0] != "return" or gotkw != wantkw:
+                bad = bad or f"{meth}({given or 'defaults'}) drives next_by_line with {seen}; documented one run with {wantkw} ({[p.result for p in ps][:1]})"
+            elif collect and ps[0].result[1] != [Residual("L0"), Residual("L1"), Residual("L2")]:
+                bad = bad or f"{meth}({given or 'defaults'}) returns {ps[0].result[1]!r}; documented: the lines next_by_line yielded, in order"
+        rep.check(bad is None, rid, f"{fi.file}::CsvPaths.{meth} is next_by_line driven to its end", bad or "4 argument sets", K.where(fi, fi.node))
